@@ -6,6 +6,7 @@ import (
 	"fmt"
 	"io"
 	"runtime"
+	"sync/atomic"
 	"time"
 
 	theine "github.com/Yiling-J/theine-go"
@@ -176,8 +177,8 @@ func makeLoader(rd *RunData) func(ctx context.Context, key K) (theine.Loaded[V],
 func (ls *loaderStub) load(ctx context.Context, key K) (theine.Loaded[V], error) {
 	rd := ls.rd
 
-	ls.n++
-	id := ls.n
+	rd.LoaderN++ // unique across restarts (each cache gets its own stub)
+	id := rd.LoaderN
 	st := &rd.Sc.Stubs
 	r := simrt.MiscRng()
 	rec := LdRec{Key: key, Start: simrt.Stamp(), StartT: simrt.Now(), Task: simrt.CurID()}
@@ -365,6 +366,8 @@ type simEnv struct {
 	afterOp   func(client int, r *Rec)
 	customOp  func(op Op, rec *Rec) // ops whose kind starts with "x"
 	peekStale bool                  // record how stale the cached clock was at invoke/return of every call
+	onRestart []func()              // re-install white-box monitors on the new store
+	pub       atomic.Pointer[cacheAPI]
 }
 
 func valueFor(client, idx int) V { return int64(client+1)<<40 | int64(idx+1)<<8 }
@@ -372,6 +375,11 @@ func valueFor(client, idx int) V { return int64(client+1)<<40 | int64(idx+1)<<8 
 //go:norace
 func (env *simEnv) exec(client, idx int, op Op) (rec Rec) {
 	rd, api := env.rd, env.api
+	if p := env.pub.Load(); p != nil {
+		// a restart published a new cache: the atomic load is the synchronisation a real program
+		// needs between the goroutine that called LoadCache and the users of the new cache
+		api = p
+	}
 	rec = Rec{Client: client, Idx: idx, Op: op, Open: true}
 	simrt.SetLabel(op.String())
 	rec.Inv, rec.InvT = simrt.Stamp(), simrt.Now()
@@ -479,6 +487,8 @@ func (env *simEnv) exec(client, idx int, op Op) (rec Rec) {
 		if err := api.save(uint64(op.Key), w); err != nil {
 			rec.Err = err.Error()
 		}
+	case "restart":
+		env.restart(op, &rec)
 	case "load":
 		if env.disk == nil {
 			env.disk = newSimDisk()
@@ -504,6 +514,56 @@ func (env *simEnv) exec(client, idx int, op Op) (rec Rec) {
 	rec.Ret, rec.RetT = simrt.Stamp(), simrt.Now()
 	simrt.SetLabel("")
 	return rec
+}
+
+// restart: SaveCache -> Close -> downtime (op.Dur) -> a new cache of the same configuration ->
+// LoadCache through reads of op.N bytes. op.Cost in 1..99: the process "crashed" while saving and
+// only that percentage of the stream is on disk (LoadCache then fails; whatever it had restored
+// before the error stays). Later calls of every client go to the new cache; calls in flight
+// finish on the old, closed one. The listener, loader and secondary stubs carry over.
+//
+//go:norace
+func (env *simEnv) restart(op Op, rec *Rec) {
+	rd, old := env.rd, env.api
+	disk := newSimDisk()
+	if err := old.save(uint64(op.Key), disk.writer(0)); err != nil {
+		rec.Err = "save: " + err.Error()
+	}
+	rs := RestartRec{SaveSeq: simrt.Stamp(), SaveT: simrt.Now()}
+	old.closeF()
+	if op.Cost > 0 && op.Cost < 100 {
+		simrt.Fault("restart.torn-stream")
+		disk.data = disk.data[:int64(len(disk.data))*op.Cost/100]
+		rs.Torn = true
+	}
+	if op.Dur > 0 {
+		simrt.Sleep(op.Dur)
+	}
+	api, err := buildCacheCfg(rd, rd.Sc.Cache)
+	if err != nil {
+		rd.violate("harness/build", err.Error())
+		return
+	}
+	if old.secondary != nil && api.secondary != nil {
+		api.secondary.keys, api.secondary.vals = old.secondary.keys, old.secondary.vals
+	}
+	rs.LoadSeq, rs.LoadT = simrt.Stamp(), simrt.Now()
+	if err := api.load(uint64(op.Key), disk.reader(op.N)); err != nil {
+		rec.Err += "load: " + err.Error()
+		rs.LoadErr = true
+	}
+	rd.Store = api.store
+	env.api = api
+	env.pub.Store(api)
+	rs.DoneSeq, rs.DoneT = simrt.Stamp(), simrt.Now()
+	if !simrt.RaceEnabled {
+		rs.Restored = internal.Snapshot(rd.Store)
+	}
+	rd.Restarts = append(rd.Restarts, rs)
+	simrt.Fault("restart")
+	for _, f := range env.onRestart {
+		f()
+	}
 }
 
 func contains(s, sub string) bool {
